@@ -220,7 +220,9 @@ where
             };
             uev("factory_new", ctl.listener, instance, fail as u64);
             if delay > 0 {
-                tokio::time::sleep(Duration::from_millis(delay)).await;
+                // a blocking (CPU-bound-like) slow factory: it must not depend on the runtime's timer, because
+                // actix-server initialises workers with the caller's runtime thread blocked (plain Tokio mode)
+                thread::sleep(Duration::from_millis(delay));
             }
             if fail {
                 return Err(());
@@ -255,12 +257,11 @@ where
             let i = g.instances.entry(self.instance).or_default();
             // every step is sticky until the harness advances the script, except the one-shot faults
             let step = i.script.front().copied().unwrap_or(ReadyStep::Ready);
-            match step {
-                ReadyStep::Pending => i.waker = Some(cx.waker().clone()),
-                ReadyStep::Ready => {}
-                ReadyStep::Err | ReadyStep::Panic => {
-                    i.script.pop_front();
-                }
+            // the waker is kept on every poll: a service may wake its worker at any time, and the harness
+            // uses that to make the worker re-check readiness after it changed the script
+            i.waker = Some(cx.waker().clone());
+            if matches!(step, ReadyStep::Err | ReadyStep::Panic) {
+                i.script.pop_front();
             }
             i.last = Some(step);
             step
